@@ -117,11 +117,24 @@ def gen_concurrent_plan(rng, i: int, tier: str) -> dict:
     l0 = rng.randrange(330, 480)
     ft = (l0 * 1024 + rng.randrange(0, 700)) * B + rng.randrange(B)
     kind = ("threads", "async")[i % 2]
+    if i % 8 == 5:
+        # bursts: 5..7 online round trips in flight at once on one event loop, every half (protects, then unprotects) on an event loop
+        # of its own - a long-lived process that calls asyncio.run() more than once
+        kind = "bursts"
     plan = {"seed": rng.getrandbits(31), "clock_ft": ft, "root_keys": [[i % 7, hash_name, secret]], "caller_sids": [sid],
             "ctx": {"kind": "stub", "legs": 2, "sig": 16}, "dc": {"omit_l2_at_31": rng.random() < 0.5, "domain": "d.test", "forest": "forest.test"},
             "delivery": rng.choice((None, {"mode": "rand", "seed": rng.getrandbits(16), "bias": "small"})), "latency_us": [1, rng.choice((50, 5000, 200000))],
             "ops": [], "pmode": rng.choice(("offline", "online-seed")), "umode": "warm", "family": "concurrent-" + kind}
     ops = plan["ops"]
+    if kind == "bursts":
+        plan["pmode"], plan["family"] = "online-seed", "concurrent-async"
+        n = rng.randint(5, 7)
+        for k in range(n):
+            ops.append({"op": "protect", "fl": "async", "group": 1, "sid": sid, "rk": rng.choice((0, None)), "net": "online", "data": rng.choice((0, 7, 33)), "cache": "fresh"})
+        for k in range(n):
+            ops.append({"op": "unprotect", "fl": "async", "group": 2, "net": "online", "blob": {"from_op": k, "relayout": False}, "cache": "fresh"})
+        plan["bursts"] = True
+        return plan
     offline_p = plan["pmode"] == "offline"
     if offline_p:
         ops.append({"op": "load_key", "rk": 0})
@@ -252,12 +265,12 @@ class C01(common.Check):
             "{DH, P256, P384}, SIDs with 1..15 sub-authorities incl. 0 and 2^32-1, plaintext lengths 0..65536 (1 MiB in thorough). Plus round trips "
             "whose halves overlap with other calls: 2..3 protects from caller threads of one process (deterministic thread scheduler), and blobs "
             "of different positions of one L0 unprotected at the same time (async, oldest first) on a cache that starts empty; one cache holding two root keys with different KDF hashes used in turn; the key "
-            "service restarting on another dynamic port between two online calls; an offline reader (same cache, or a cache of its own holding only the root key) whose wall clock is behind the writer's by a tick up to an L1 interval; DC services that abort or close the connection right after every complete Response. "
+            "service restarting on another dynamic port between two online calls; bursts of 5..7 online round trips in flight at once, protects on one event loop and unprotects on a second one; an offline reader (same cache, or a cache of its own holding only the root key) whose wall clock is behind the writer's by a tick up to an L1 interval; DC services that abort or close the connection right after every complete Response. "
             "Non-trivial = every plan (distinct clock / path / shape combination); distinct = distinct plan.")
     components = {"client": "real (public API both flavours, KeyCache, RPC client, codecs, crypto)", "DC": "model (RefDC, independent derivation)",
                   "clock / entropy / network": "simulated", "security context": "stub (StubCtx)", "cross-check": "ref.cms decrypts every emitted blob"}
     assumptions = ["client and DC share the simulated clock in C01 plans (skew is C17's subject)"]
-    required_fired = ("mode_pub", "mode_nonce", "pos_l2_31", "relayout", "relayout_by_library", "roundtrip_ok", "pt_big", "two_protects_one_cache", "moving_clock", "l0_boundary_during_protect", "concurrent_threads", "concurrent_async", "thread_overlap", "two_root_keys_one_cache", "dc_restarted", "reader_clock_behind_writer", "reader_clock_behind_with_own_cache", "connection_aborted_after_reply")
+    required_fired = ("mode_pub", "mode_nonce", "pos_l2_31", "relayout", "relayout_by_library", "roundtrip_ok", "pt_big", "two_protects_one_cache", "moving_clock", "l0_boundary_during_protect", "concurrent_threads", "concurrent_async", "thread_overlap", "two_root_keys_one_cache", "dc_restarted", "reader_clock_behind_writer", "reader_clock_behind_with_own_cache", "connection_aborted_after_reply", "async_bursts_on_two_event_loops")
 
     def cases(self, tier, seed):
         rng = prng.stream(seed, "C01")
@@ -279,6 +292,8 @@ class C01(common.Check):
             probes["two_root_keys_one_cache"] = 1
         if case.get("family") == "dc-restart":
             probes["dc_restarted"] = tr.world.stats.get("dc_restart", 0)
+        if case.get("bursts"):
+            probes["async_bursts_on_two_event_loops"] = 1
         if case.get("reader_clock_behind"):
             probes["reader_clock_behind_writer"] = 1
             probes["reader_clock_behind_with_own_cache"] = int(bool(case.get("reader_has_own_cache")))
